@@ -494,9 +494,11 @@ def extrema(curext, mm, maxcase, mincase=None, casenum=None):
                 curext.mn_x[:, casenum] = np.nan
 
         if curext.ext is None:
-            curext.ext = mm.ext @ [[1, 1]]
+            # float tables: later cases may bring non-integer values
+            # or NaN even if the first one is all integers
+            curext.ext = mm.ext.astype(float) @ [[1, 1]]
             if mm.ext_x is not None:
-                curext.ext_x = mm.ext_x @ [[1, 1]]
+                curext.ext_x = mm.ext_x.astype(float) @ [[1, 1]]
             else:
                 curext.ext_x = None
             curext.maxcase = maxcase
@@ -537,8 +539,9 @@ def extrema(curext, mm, maxcase, mincase=None, casenum=None):
             curext.mn_x[:, casenum] = np.nan
 
     if curext.ext is None:
-        curext.ext = mm.ext.copy()
-        curext.ext_x = copy.copy(mm.ext_x)
+        # float tables (see above); `astype` makes the copy
+        curext.ext = mm.ext.astype(float)
+        curext.ext_x = None if mm.ext_x is None else mm.ext_x.astype(float)
         curext.maxcase = maxcase
         curext.mincase = mincase
         return
